@@ -9,10 +9,11 @@ open Prog Strict
 
 variable {cfg : Cfg}
 
-/-- the captures of the running match respect the quantifiers tree-sitter reports for them: a capture that the
-query says occurs exactly once has a node, and no capture has quantifier `Zero` -/
+/-- no capture of the running stanza's query has quantifier `Zero`. (That a capture which the query says occurs exactly
+once has a node is NOT assumed: tree-sitter keeps at most three captures per pattern step and drops the others while it
+still reports them as occurring once; since the repair of `Capture::evaluate` such a capture is an error, not a panic.) -/
 def EnvQ (env : Env) : Prop :=
-  ∀ name q, env.quants.lookup name = some q → q ≠ .zero ∧ (q = .one → env.mat.nodes name ≠ [])
+  ∀ name q, env.quants.lookup name = some q → q ≠ .zero
 
 -- capture names with a resolved quantifier that an expression mentions
 mutual
@@ -38,14 +39,14 @@ theorem Resolved.left {env : Env} {a b : List String} (h : Resolved env (a ++ b)
 theorem Resolved.right {env : Env} {a b : List String} (h : Resolved env (a ++ b)) : Resolved env b :=
   fun n hn => h n (List.mem_append_right _ hn)
 
-theorem Safe.fromNodes (vs : List Val) (q : Quant) (nodes : List Nat) (hq : q ≠ .zero) (h1 : q = .one → nodes ≠ []) :
+theorem Safe.fromNodes (vs : List Val) (q : Quant) (nodes : List Nat) (hq : q ≠ .zero) :
     Safe cfg vs (fromNodes q nodes : Prog SRest Val) := by
   unfold Strict.fromNodes
   cases q with
   | zero => exact (hq rfl).elim
   | one =>
     cases nodes with
-    | nil => exact (h1 rfl rfl).elim
+    | nil => exact Safe.throwK vs _
     | cons n r => exact Safe.pure vs _ (fun _ _ => by simp [HasVals.vals, wfs, wf])
   | zeroOrMore | oneOrMore =>
     refine Safe.pure vs _ (fun k _ => ?_)
@@ -146,7 +147,7 @@ theorem safe_expr (ht : TreeOK cfg.tree) (fuel : Nat) : ∀ m : Nat,
           | some q' =>
             simp only
             have := hq name q' hl
-            exact Safe.fromNodes vs q' _ this.1 this.2
+            exact Safe.fromNodes vs q' _ this
       | var name l => rw [evalExpr]; exact Safe.unscopedGet vs name
       | scopedVar scope name l =>
         rw [evalExpr]
@@ -616,10 +617,10 @@ theorem safe_stmts (ht : TreeOK cfg.tree) (hsh : ShorthandsOK cfg) (fuel : Nat) 
 
 /-! ### matches, stanzas, the whole run -/
 
-/-- what tree-sitter guarantees about a match of a stanza's query: captures respect their quantifiers, and the
-full-match node is a node of the tree -/
+/-- what tree-sitter guarantees about a match of a stanza's query: no capture of the query has quantifier `Zero`, and the
+full-match node is a node of the tree. Nothing is assumed about how many nodes a capture has in the match. -/
 def MatchOK (tree : Tree) (st : Stanza) (m : QMatch) : Prop :=
-  (∀ name q, st.captures.lookup name = some q → q ≠ .zero ∧ (q = .one → m.nodes name ≠ [])) ∧
+  (∀ name q, st.captures.lookup name = some q → q ≠ .zero) ∧
   (∀ n rest, m.nodes fullMatchName = n :: rest → (tree.node? n).isSome)
 
 /-- what the checker guarantees about a stanza: every resolved capture it mentions is a capture of its query -/
